@@ -103,8 +103,11 @@ where
         {
             let mut vec = Vec::new();
 
-            while let Some(result) = seq.next_element::<T>().transpose() {
-                let Ok(elem) = result else {
+            // Buffer every item before trying to convert it: an item that is not a `T` is then
+            // always skipped as a whole, and an error of the sequence itself (like input that ends
+            // in the middle of the list) is returned instead of asking for the next item forever.
+            while let Some(value) = seq.next_element::<JsonValue>()? {
+                let Ok(elem) = T::deserialize(value) else {
                     continue;
                 };
 
